@@ -1,13 +1,21 @@
 #!/usr/bin/env python3
 """Merge evidence files into the second argument (rewritten).
    merge_evidence.py <checked.json> <plain.json>      the two build profiles of one check
-   merge_evidence.py --probe <probe.json> <main.json> add the probe corpus part (C19)"""
+   merge_evidence.py --probe <probe.json> <main.json> add the probe corpus part (C19)
+   merge_evidence.py --miri <frag.json> <main.json>   add the Miri tier part (thorough tiers)"""
 import json, sys
 if sys.argv[1] == "--probe":
     a = json.load(open(sys.argv[2])); b = json.load(open(sys.argv[3]))
     b["coverage"]["conjuring_probes"] = a["coverage"]
     b["coverage"]["evaluations"] += a["coverage"]["evaluations"]
     b["wall_s"] += a["wall_s"]; b["violations"] = b.get("violations", 0) + a.get("violations", 0)
+    json.dump(b, open(sys.argv[3], "w"), indent=1); sys.exit(0)
+if sys.argv[1] == "--miri":
+    a = json.load(open(sys.argv[2])); b = json.load(open(sys.argv[3]))
+    m = a["miri"]
+    b["coverage"]["miri"] = m
+    b["coverage"]["evaluations"] += m["runs"]
+    b["wall_s"] += m["wall_s"]; b["violations"] = b.get("violations", 0) + m["undefined_behaviour_reports"] + m["oracle_violations"]
     json.dump(b, open(sys.argv[3], "w"), indent=1); sys.exit(0)
 a = json.load(open(sys.argv[1])); b = json.load(open(sys.argv[2]))
 ca, cb = a["coverage"], b["coverage"]
